@@ -37,4 +37,16 @@ def run_case(c):
                 r.update(evaluations=n + 1, case={"prop": "C01", "kind": "op_check", "op": op, "api": kind, "inputs": inp})
                 return r
         return {"ok": True, "evaluations": i["n"]}
+    if k == "breeze_sweep":
+        from . import n_c16
+        rnd = random.Random(i["seed"])
+        for n in range(i["n"]):
+            ok, desc, why = n_c16.one(rnd)
+            if len(bytes.fromhex(desc["R1"])) < 12:
+                continue
+            bad = [j for j, w in enumerate(n_c16.one.last_writes) if not spec.frame_ok(w)]
+            if bad:
+                return {"ok": False, "evaluations": n + 1, "detail": f"control_breeze_device: write {bad[0]} is not a well-formed frame",
+                        "request": desc}
+        return {"ok": True, "evaluations": i["n"]}
     raise ValueError(k)
